@@ -304,3 +304,138 @@ Proof.
     + apply String.eqb_eq in E. subst. exfalso. apply H. left; reflexivity.
     + apply IH. intro Hi. apply H. right; exact Hi.
 Qed.
+
+(* ------------------------------------------------------------------ *)
+(* the default image retrieval and a callable that may raise *)
+
+Lemma mapM_none_in' : forall {B C} (f : B -> option C) (l : list B) x, In x l -> f x = None -> mapM f l = None.
+Proof.
+  intros B C f l x. induction l as [|y l IH]; simpl; intros Hi Hx; [contradiction|].
+  destruct Hi as [->|Hi]; [rewrite Hx; reflexivity|].
+  rewrite (IH Hi Hx). destruct (f y); reflexivity.
+Qed.
+
+Lemma mapM_Forall2' : forall {B C} (f : B -> option C) (l : list B) l',
+  mapM f l = Some l' -> Forall2 (fun x y => f x = Some y) l l'.
+Proof.
+  intros B C f l. induction l as [|x l IH]; simpl; intros l' H.
+  - injection H as <-. constructor.
+  - destruct (f x) eqn:Ex; try discriminate. destruct (mapM f l) eqn:E; try discriminate.
+    injection H as <-. constructor; auto.
+Qed.
+
+(* mapM over a concatenation succeeds exactly when it succeeds on every block *)
+Lemma mapM_concat_some : forall {B C} (f : B -> option C) (ls : list (list B)) r,
+  mapM f (concat ls) = Some r -> exists rs, mapM (mapM f) ls = Some rs /\ concat rs = r.
+Proof.
+  intros B C f ls. induction ls as [|l ls IH]; simpl; intros r H.
+  - injection H as <-. exists []. split; reflexivity.
+  - rewrite mapM_app in H. destruct (mapM f l) as [a|] eqn:Ea; try discriminate.
+    destruct (mapM f (concat ls)) as [b|] eqn:Eb; try discriminate. injection H as <-.
+    destruct (IH b eq_refl) as [rs [Hrs Hc]]. exists (a :: rs). rewrite Hrs. split; [reflexivity | simpl; rewrite Hc; reflexivity].
+Qed.
+
+Lemma mapM_concat_none : forall {B C} (f : B -> option C) (ls : list (list B)),
+  mapM f (concat ls) = None -> mapM (mapM f) ls = None.
+Proof.
+  intros B C f ls. induction ls as [|l ls IH]; simpl; intro H; [discriminate|].
+  rewrite mapM_app in H. destruct (mapM f l) as [a|] eqn:Ea; [|reflexivity].
+  destruct (mapM f (concat ls)) as [b|] eqn:Eb; [discriminate|]. rewrite (IH eq_refl). reflexivity.
+Qed.
+
+Lemma mapM_bind_some : forall {B C D} (h : B -> option C) (g : C -> D) (l : list B) rs,
+  mapM h l = Some rs -> mapM (fun a => x <- h a ;; Some (g x)) l = Some (map g rs).
+Proof.
+  intros B C D h g l. induction l as [|a l IH]; simpl; intros rs H.
+  - injection H as <-. reflexivity.
+  - destruct (h a) as [x|]; try discriminate. destruct (mapM h l) as [r|]; try discriminate.
+    injection H as <-. cbn [obind]. rewrite (IH r eq_refl). reflexivity.
+Qed.
+
+Lemma mapM_bind_none : forall {B C D} (h : B -> option C) (g : C -> D) (l : list B),
+  mapM h l = None -> mapM (fun a => x <- h a ;; Some (g x)) l = None.
+Proof.
+  intros B C D h g l. induction l as [|a l IH]; simpl; intro H; [discriminate|].
+  destruct (h a) as [x|]; cbn [obind]; [|reflexivity].
+  destruct (mapM h l) as [r|]; [discriminate|]. rewrite (IH eq_refl). reflexivity.
+Qed.
+
+Section ImageFacts.
+  Context {Img V : Type}.
+  Variable open_image : string -> option Img.
+  Variable forward_embed : list Img -> list V.
+
+  (* retrieval returns one image per path, in order: image i is the one row i's path opens to *)
+  Lemma retrieve_one_per_path : forall paths imgs,
+    forward_retrieve open_image paths = Some imgs ->
+    length imgs = length paths /\ Forall2 (fun p im => open_image p = Some im) paths imgs.
+  Proof.
+    intros paths imgs H. unfold forward_retrieve in H. split.
+    - apply mapM_length in H. exact H.
+    - apply mapM_Forall2'. exact H.
+  Qed.
+
+  (* ... and raises as soon as one path cannot be opened *)
+  Lemma retrieve_raises : forall paths p, In p paths -> open_image p = None ->
+    image_call open_image forward_embed paths = None.
+  Proof.
+    intros paths p Hi Hp. unfold image_call, forward_retrieve. rewrite (mapM_none_in' _ _ p Hi Hp). reflexivity.
+  Qed.
+
+  (* forward_embed is row-wise *)
+  Variable embed1 : Img -> V.
+  Hypothesis H_app : forall xs ys, forward_embed (xs ++ ys) = forward_embed xs ++ forward_embed ys.
+  Hypothesis H_one : forall x, forward_embed [x] = [embed1 x].
+
+  Lemma forward_embed_map : forall xs, forward_embed xs = map embed1 xs.
+  Proof.
+    assert (Hnil : forward_embed [] = []).
+    { pose proof (H_app [] []) as H. simpl in H. destruct (forward_embed []) as [|v r]; [reflexivity|].
+      apply (f_equal (@length V)) in H. rewrite app_length in H. simpl in H. lia. }
+    induction xs as [|x xs IH]; [exact Hnil|].
+    change (x :: xs) with ([x] ++ xs). rewrite H_app, H_one, IH. reflexivity.
+  Qed.
+
+  (* an unopenable cell anywhere in the column: the conversion raises (no row is dropped silently) *)
+  Lemma image_forward_raises : forall bs cells c, valid_bs bs ->
+    In c cells -> open_image (render c) = None ->
+    emb_forward_raising (image_call open_image forward_embed) bs cells = None.
+  Proof.
+    intros bs cells c Hv Hi Hc. unfold emb_forward_raising.
+    assert (Hall : mapM open_image (ser_list cells) = None).
+    { apply (mapM_none_in' _ _ (render c)); [unfold ser_list; apply in_map; exact Hi | exact Hc]. }
+    rewrite <- (arg_lists_concat bs cells Hv) in Hall. apply mapM_concat_none in Hall.
+    unfold image_call, forward_retrieve. rewrite (mapM_bind_none _ _ _ Hall). reflexivity.
+  Qed.
+
+  (* every cell opens: one image per row, and row i of the result is forward_embed's output for the
+     image of row i's path, whatever the batch size *)
+  Lemma image_forward_covers : forall bs cells imgs, valid_bs bs -> cells <> [] ->
+    mapM open_image (ser_list cells) = Some imgs ->
+    length imgs = length cells /\
+    emb_forward_raising (image_call open_image forward_embed) bs cells = Some (length cells, map embed1 imgs).
+  Proof.
+    intros bs cells imgs Hv Hc Hall.
+    assert (Hlen : length imgs = length cells).
+    { apply mapM_length in Hall. unfold ser_list in Hall. rewrite map_length in Hall. exact Hall. }
+    split; [exact Hlen|]. unfold emb_forward_raising.
+    pose proof Hall as Hall2. rewrite <- (arg_lists_concat bs cells Hv) in Hall2.
+    destruct (mapM_concat_some _ _ _ Hall2) as [rs [Hrs Hcat]].
+    unfold image_call, forward_retrieve. rewrite (mapM_bind_some _ forward_embed _ _ Hrs). cbn [obind].
+    assert (Hne : map embed1 imgs <> []).
+    { destruct imgs; [destruct cells; [congruence | simpl in Hlen; discriminate] | discriminate]. }
+    assert (Hres : forall vals, vals = map embed1 imgs ->
+                   match vals with [] => None | _ => Some (length cells, vals) end = Some (length cells, map embed1 imgs)).
+    { intros vals ->. destruct (map embed1 imgs); [congruence | reflexivity]. }
+    destruct bs as [k|].
+    - destruct (arg_lists_nonempty (Some k) cells Hv Hc) as [a [r [E _]]].
+      assert (Hl : length rs = length (arg_lists (Some k) cells)) by (apply mapM_length in Hrs; exact Hrs).
+      destruct rs as [|r0 rs']; [rewrite E in Hl; discriminate|].
+      cbn [map torch_cat0 obind]. apply Hres.
+      change (forward_embed r0 :: map forward_embed rs') with (map forward_embed (r0 :: rs')).
+      rewrite (map_ext _ _ forward_embed_map), <- concat_map, Hcat. reflexivity.
+    - cbn [arg_lists mapM] in Hrs. destruct (mapM open_image (ser_list cells)) as [im|] eqn:E; [|discriminate].
+      injection Hrs as <-. cbn [map hd_error obind]. apply Hres.
+      simpl in Hcat. rewrite app_nil_r in Hcat. subst im. apply forward_embed_map.
+  Qed.
+End ImageFacts.
